@@ -8,6 +8,16 @@ CHECKS = [
      "note": REAL + "; oracle abstentions: mainstream origin only for v_lim/v_free>=0.05, lane gain outside lane-drop clause",
      "technique": "symbolic execution of the real code + SMT (z3 nlsat) equivalence against a reference model, per topology",
      "also": ["sx2smt", "discharge"]},
+    {"id": "C02", "category": "model_checking",
+     "text": "Bounded SMT check without oracle: for every topology of the family and every encoding of the real step (NumPy symbolic paths, SX/MX IR), the vehicle balance at every node and the network-wide balance (derived compositionally: per-link telescoping lemmas + node balances + a linear-combination query) are proven for ALL real inputs and parameters; thorough also attempts the network-wide equation directly.",
+     "note": REAL + "; balance computed from the function's own inputs/outputs, all positivity options off",
+     "technique": "symbolic execution of the real code + SMT (z3 nlsat) proof of balance identities, per topology",
+     "also": ["sx2smt", "discharge"]},
+    {"id": "C03", "category": "translation_validation",
+     "text": "Translation validation per program (topology x compactness level x more_out x SX|MX x symbolic|numeric parameters): the IR of the function returned by the real Engine.to_function is proven equal, component by component and for ALL real arguments, to the symbolic run of the real NumPy engine on the same network (inputs bound by the documented layout).",
+     "note": REAL + "; numeric mode uses dyadic parameter values (exact float folding), mainstream origins only with symbolic parameters; lanes numeric on the CasADi side when phi is given",
+     "technique": "compiler-IR (CasADi SXFunction) to SMT translation + SMT equivalence with the symbolically executed NumPy step",
+     "engine": "sx2smt", "also": ["symx+fork", "discharge"]},
 ]
 _TODO = "check not built yet in this session (machinery in progress); see DESIGN.md section 3"
-NOT_APPLICABLE = [{"property_id": f"C{i:02d}", "reason": _TODO} for i in range(2, 20)]
+NOT_APPLICABLE = [{"property_id": f"C{i:02d}", "reason": _TODO} for i in range(4, 20)]
